@@ -2,6 +2,7 @@ package participle
 
 import (
 	"fmt"
+	"reflect"
 	"strings"
 )
 
@@ -52,7 +53,7 @@ func buildEBNF(root bool, n node, seen map[node]bool, p *ebnfp, outp *[]*ebnfp) 
 		}
 
 	case *union:
-		name := strings.ToUpper(n.typ.Name()[:1]) + n.typ.Name()[1:]
+		name := productionName(n.typ)
 		if p != nil {
 			p.out += name
 		}
@@ -70,11 +71,11 @@ func buildEBNF(root bool, n node, seen map[node]bool, p *ebnfp, outp *[]*ebnfp) 
 		}
 
 	case *custom:
-		name := strings.ToUpper(n.typ.Name()[:1]) + n.typ.Name()[1:]
+		name := productionName(n.typ)
 		p.out += name
 
 	case *strct:
-		name := strings.ToUpper(n.typ.Name()[:1]) + n.typ.Name()[1:]
+		name := productionName(n.typ)
 		if p != nil {
 			p.out += name
 		}
@@ -179,4 +180,14 @@ func endsInModifier(n node) bool {
 		return endsInModifier(n.node)
 	}
 	return false
+}
+
+// productionName returns the EBNF production name for a Go type.
+func productionName(t reflect.Type) string {
+	name := t.Name()
+	if name == "" {
+		// Anonymous struct types have no name to derive a production name from.
+		return "Anonymous"
+	}
+	return strings.ToUpper(name[:1]) + name[1:]
 }
